@@ -135,6 +135,10 @@ func (m heapManager) run() {
 }
 
 func (m heapManager) sync(drop <-chan struct{}) {
+	// a render cycle starts with sync: pushes detached in the previous
+	// cycle must be in the heap before it, otherwise a bar is missing
+	// from the frame or from the width sync matrix of this cycle.
+	m.pending.Wait()
 	m.req <- heapRequest{cmd: h_sync, data: drop}
 }
 
